@@ -37,6 +37,24 @@ if TYPE_CHECKING:
 T = TypeVar("T", bound=BaseType)
 
 
+def _same_type(a: type[BaseType], b: type[BaseType]) -> bool:
+    """Whether two types are the same target for a typedef.
+
+    Pointer and array types are created anew for every declaration, so they are compared by what they are made of.
+    """
+    if a is b:
+        return True
+
+    if issubclass(a, Pointer) and issubclass(b, Pointer):
+        return _same_type(a.type, b.type)
+
+    if issubclass(a, BaseArray) and issubclass(b, BaseArray):
+        counts = [getattr(t.num_entries, "expression", t.num_entries) for t in (a, b)]
+        return counts[0] == counts[1] and a.null_terminated == b.null_terminated and _same_type(a.type, b.type)
+
+    return False
+
+
 class cstruct:
     """Main class of cstruct. All types are registered in here.
 
@@ -217,7 +235,9 @@ class cstruct:
         Raises:
             ValueError: If the type already exists.
         """
-        if not replace and (name in self.typedefs and self.resolve(self.typedefs[name]) != self.resolve(type_)):
+        if not replace and (
+            name in self.typedefs and not _same_type(self.resolve(self.typedefs[name]), self.resolve(type_))
+        ):
             raise ValueError(f"Duplicate type: {name}")
 
         self.typedefs[name] = type_
